@@ -40,7 +40,33 @@ def tier_params(tier, seed):
     return {'tA': [0.2, 0.5, 0.7], 'tB': [0.3, 0.6], 'alpha': [10, 30, 60, 90, 120, 170], 'scales': [1.0, 100.0, 0.03], 'lat': 5, 'line_scales': [1e-4, 1e-5, 1e-6, 1e-7, 1e-9, 1e6, 1e9]}
 
 
-def check_constructed(aname, bname, tA, tB, alpha, scale, acc):
+# how the crossing is asked for: the segment method with its default, with an explicit tolerance (keyword and
+# positional; only values at or below the default: a looser tol is a request for less accuracy), and - for two
+# Bezier curves - the subdivision helper called directly with its own defaults, with tol alone, or both tolerances
+CALLS = ['method', 'method_tol_keyword', 'method_tol_positional', 'helper_defaults', 'helper_tol_only_keyword',
+         'helper_tol_only_positional', 'helper_both_positional']
+
+
+def call_intersect(A, B, how):
+    if how == 'method':
+        return A.intersect(B)
+    if how == 'method_tol_keyword':
+        return A.intersect(B, tol=1e-12)
+    if how == 'method_tol_positional':
+        return A.intersect(B, 1e-13)
+    from svgpathtools.bezier import bezier_intersections
+    L = max(A.length(), B.length())
+    a, b = list(A.bpoints()), list(B.bpoints())
+    if how == 'helper_defaults':
+        return bezier_intersections(a, b, L)
+    if how == 'helper_tol_only_keyword':
+        return bezier_intersections(a, b, L, tol=1e-3)      # tol: how far apart two solutions must be to count as distinct
+    if how == 'helper_tol_only_positional':
+        return bezier_intersections(a, b, L, 1e-3)
+    return bezier_intersections(a, b, L, 1e-10, 1e-10)
+
+
+def check_constructed(aname, bname, tA, tB, alpha, scale, acc, how='method'):
     A = AB.make(aname, scale)
     B = isect.place(bname, tB, A, tA, alpha, scale)
     ka, kb = kind(A), kind(B)
@@ -59,11 +85,17 @@ def check_constructed(aname, bname, tA, tB, alpha, scale, acc):
         acc.filt('second_approach_in_window')
         return
     pair = ka + kb
-    acc.case(case, cls='constructed/%s' % pair)
+    if how != 'method':
+        if how.startswith('helper') and (ka in 'LA' or kb in 'LA'):
+            return
+        case['call'] = how
+    acc.case(case, cls='constructed/%s' % pair if how == 'method' else 'constructed_call/%s' % how)
     if not 0.01 <= scale <= 1000:
         acc.seen('constructed_extreme_scale/%s' % pair)
-    r = outcome(lambda: A.intersect(B))
+    r = outcome(lambda: call_intersect(A, B, how))
     sig = {'pair': pair}
+    if how != 'method':
+        sig['call'] = how
     if not 0.01 <= scale <= 1000:
         sig['scale'] = 'tiny' if scale < 1 else 'huge'
     if ka == 'A' or kb == 'A':
@@ -260,6 +292,9 @@ def run_shard(desc, tier, seed):
         for sc in tp['scales']:
             for tA, tB, al in itertools.product(tp['tA'], tp['tB'], tp['alpha']):
                 check_constructed(desc['A'], desc['B'], tA, tB, al, sc, acc)
+                if sc == 1.0 and (tA, tB) == (tp['tA'][0], tp['tB'][0]) or (tier == 'thorough' and sc == 1.0):
+                    for how in CALLS[1:]:
+                        check_constructed(desc['A'], desc['B'], tA, tB, al, sc, acc, how=how)
         # arcs: also crossings near either END of the arc (angle ranges that wrap past +-360 degrees are
         # traversed in their last part only)
         if desc['A'][0] == 'A' or desc['B'][0] == 'A':
@@ -315,7 +350,7 @@ def replay(case):
         check_circles(case['R'], case['bscale'], case['tA'], case['tB'], case['alpha'], acc)
         acc.vlist = [v for v in acc.vlist if v['case'].get('order') == case.get('order')]
     elif case['what'] == 'constructed':
-        check_constructed(case['A'], case['B'], case['tA'], case['tB'], case['alpha'], case['scale'], acc)
+        check_constructed(case['A'], case['B'], case['tA'], case['tB'], case['alpha'], case['scale'], acc, how=case.get('call', 'method'))
     elif case['what'] == 'exact':
         check_exact(case['B'], case['rot'], 0, acc, only=None) if False else None
         B = AB.make(case['B'], rot=case['rot'])
